@@ -119,3 +119,19 @@ pub fn enclose_payload_exceeds_field() {
         Err(e) => { std::mem::forget(e); }
     }
 }
+
+/// the LARGEST representable payload (255 bytes for a 1-byte field) is enclosed and extracted correctly (seeded C13-1)
+#[kani::proof]
+#[kani::unwind(260)]
+pub fn enclose_largest_representable_payload() {
+    let mut framer = LengthDelimited::new().set_length_field_len(1);
+    let mut buf: Vec<u8> = vec![7u8; 255];
+    <LengthDelimited as Framer<Vec<u8>>>::enclose(&mut framer, &mut buf);
+    assert!(buf.len() == 256 && buf[0] == 255);
+    let s = buf.slice(..);
+    match <LengthDelimited as Framer<Vec<u8>>>::extract(&mut framer, &s) {
+        Ok(Some(f)) => assert!(f == Frame::new(1, 255, 0)),
+        Ok(None) => assert!(false),
+        Err(e) => { std::mem::forget(e); assert!(false); }
+    }
+}
